@@ -160,6 +160,43 @@ func runOverlap(c *core.Case, st *core.Stats) []core.Violation {
 // bstarText builds texts whose reduced B*-substring problem has runs,
 // tandem repeats and long increasing ramps: the shape that exhausts the
 // tandem-repeat sort budget (trsort) and reaches its copy paths.
+// staircaseText builds a table of records of two-byte words (first byte <
+// second byte: every word starts a B* suffix). A record consists of runs of
+// equal words with ascending values; nine or more copies of a record, some
+// with a prefix of other words, form tandem repeats of many B* suffixes with
+// equal ranks, and the ascending runs are expensive for the tandem repeat sort
+// (its work budget runs out and the partial-copy paths are taken).
+func staircaseText(r *rand.Rand) []byte {
+	var data []byte
+	word := func(i int) {
+		data = append(data, byte('a'+(i/13)%13), byte('n'+i%13))
+	}
+	runs, runLen := 4+r.Intn(18), 2+r.Intn(7)
+	step := 1 + r.Intn(2)
+	record := func(prefix int) {
+		for k := 0; k < prefix; k++ {
+			word(30 + r.Intn(2))
+		}
+		for k := 0; k < runs; k++ {
+			for q := 0; q < runLen; q++ {
+				word(k * step)
+			}
+		}
+	}
+	for part, parts := 0, 1+r.Intn(3); part < parts; part++ {
+		pre := r.Intn(4)
+		for c, copies := 0, 2+r.Intn(14); c < copies; c++ {
+			record(pre)
+		}
+		word(100 + part)
+		if r.Intn(3) == 0 {
+			runs = 4 + r.Intn(18)
+		}
+	}
+	data = append(data, byte('a'+r.Intn(3)))
+	return data
+}
+
 func bstarText(r *rand.Rand, n int) []byte {
 	// a B* word is 'a' 0xff 'b'+k: its rank in the reduced problem grows
 	// with k. A "symbol string" over small integers is expanded into words.
@@ -417,6 +454,9 @@ func (p *c09prop) Gen(kind string, idx int64, seed int64, tier string) core.Case
 		case "bstar":
 			n := 20 + r.Intn(1+r.Intn(6000))
 			sc = SfxCase{Text: bstarText(r, n), Family: "bstar"}
+			if r.Intn(8) == 0 {
+				sc.Text = staircaseText(r)
+			}
 		case "big":
 			sizes := []int{20000, 50000, 100000}
 			if tier == "thorough" {
